@@ -3,7 +3,10 @@
 
 package rpc
 
-import "time"
+import (
+	"sync/atomic"
+	"time"
+)
 
 // VerifSetTransportTick sets the housekeeping tick of a Transport before its first use.
 func VerifSetTransportTick(t *Transport, d time.Duration) {
@@ -22,4 +25,18 @@ func VerifUpgradeUnmarshal(b byte) (noRequest, noResponse, heartbeat, stream byt
 	u := &upgrade{}
 	u.Unmarshal([]byte{b})
 	return u.NoRequest, u.NoResponse, u.Heartbeat, u.Stream
+}
+
+// VerifGetConn hands out a pooled connection the way Transport.Call and its siblings obtain one,
+// and returns the step they perform once their request has been issued on it. A harness that
+// calls the two itself owns the schedule in between (housekeeping ticks, CloseIdleConnections).
+func VerifGetConn(t *Transport, addr string) (*Conn, func(), error) {
+	pc, err := t.getConn(addr)
+	if err != nil {
+		return nil, nil, err
+	}
+	return pc.Conn, func() {
+		pc.lastTime = t.now
+		atomic.AddInt32(&pc.reserved, -1)
+	}, nil
 }
